@@ -781,3 +781,56 @@ def _check_defocus(ctx, repo, aliases) -> None:
                           "name == 'defocus' is delegated to the property setter",
                           "the 'defocus' branch does not call the inherited __setattr__: the property setter "
                           "(C10 = -value) never runs", key_detail="delegate")
+
+
+# ---- added after the seeded change C21-r3seed6: coefficients are stored as given
+_inner_run_c21 = run
+
+
+def run(ctx) -> None:  # noqa: F811
+    import ast as _ast
+
+    from ..cfg import DataFlow as _DF
+    from ..model import call_name as _cn, dotted as _dotted, norm_text as _nt, walk_no_nested as _walk
+
+    ctx.rule("R-STOREDASGIVEN", "`_HasAberrations.__setattr__` stores the value it is given under the canonical symbol "
+             "unchanged — every reaching definition of the stored expression is the `value` parameter, possibly "
+             "through validate_distribution — and `__getattr__` returns the stored entry unchanged.  The phase is "
+             "chi(alpha, phi) *for the given coefficients*: a setter that rewrites an angle (wrapping it with a period "
+             "taken from the wrong digit of the symbol) evaluates a different aberration than the one that was set")
+    repo = ctx.repo
+    k = repo.cls("abtem.transfer", "_HasAberrations")
+    f = k.own_method("__setattr__")
+    ctx.require(f is not None and len(f.positional_params) == 3, "_HasAberrations.__setattr__(self, name, value) not found")
+    vparam = f.positional_params[2]
+    df = _DF(f.node)
+    stores = [st for st in _walk(f.node) if isinstance(st, _ast.Assign) and isinstance(st.targets[0], _ast.Subscript)
+              and (_dotted(st.targets[0].value) or "").endswith("_aberration_coefficients")]
+    ctx.require(len(stores) >= 1, f"{f.qualname}: store into _aberration_coefficients not found")
+
+    def origins(e, at, depth=0):
+        """set of 'param' / text of non-identity expressions the value can come from"""
+        if depth > 8:
+            return {"<deep>"}
+        while isinstance(e, _ast.Call) and (_cn(e) or "").split(".")[-1] in ("validate_distribution",) and e.args:
+            e = e.args[0]
+        if isinstance(e, _ast.Name):
+            out = set()
+            for d in df.reaching(at, e.id):
+                if d.kind == "param":
+                    out.add("param" if e.id == vparam else f"<param {e.id}>")
+                elif d.kind == "assign" and d.value is not None:
+                    out |= origins(d.value, d.node, depth + 1)
+                else:
+                    out.add(f"<{d.kind}>")
+            return out or {f"<{e.id}>"}
+        return {_nt(e)[:60]}
+
+    for st in stores:
+        got = origins(st.value, df.cfg.node_of(st).idx)
+        ctx.check(got == {"param"}, "R-STOREDASGIVEN", f"{f.qualname}:stored value", f.loc(st),
+                  "the stored coefficient is the given value (through validate_distribution only)",
+                  f"the stored coefficient can be `{sorted(got - {'param'})[0] if got - {'param'} else ''}` instead of the "
+                  "given value: the object then evaluates chi for other coefficients than the ones that were set",
+                  key_detail="stored")
+    _inner_run_c21(ctx)
